@@ -307,12 +307,17 @@ def main():
 
     # ---------------------------------------------------------------- self-test mutants (thorough)
     if tier == 'thorough' and not args.only:
-        for u in units:
-            for mu in registry.UNITS[u].get('mutants', []):
+        jobs = []
+        with cf.ThreadPoolExecutor(max_workers=8) as ex:
+            for u in units:
+                for mu in registry.UNITS[u].get('mutants', []):
+                    jobs.append((u, mu, ex.submit(run_mutant, u, mu, args.repo, workdir)))
+            for (u, mu, f) in jobs:
                 selftest['mutants'] += 1
-                ok, info = run_mutant(u, mu, args.repo, workdir)
+                ok, info = f.result()
                 if ok:
                     selftest['killed'] += 1
+                    selftest.setdefault('killed_by', []).append('%s: %s -> %s' % (u, mu['name'], info))
                 else:
                     selftest['survivors'].append('%s: %s (%s)' % (u, mu['name'], info))
         if selftest['survivors']:
